@@ -9,6 +9,10 @@
 EXTENDS Naturals, Integers, Sequences, FiniteSets, TLC, TLCExt, Json, IOUtils, CelValue
 LOCAL EV == INSTANCE CelEval
 LOCAL BF == INSTANCE CelBuiltins
+LOCAL NL == INSTANCE CelNumLit
+LOCAL DU == INSTANCE CelDuration
+LOCAL ZZ == INSTANCE BigInt
+LOCAL NM64 == INSTANCE Num64
 
 Rec == ndJsonDeserialize(IOEnv.TRACE)
 
@@ -27,6 +31,10 @@ Expected(r) ==
     [] r.op = "size" -> BF!Size(r.a)
     [] r.op = "has" -> HasOp(r.a, r.b.cp)
     [] r.op = "sel" -> SelectOp(r.a, r.b.cp, FALSE)
+    [] r.op = "tostr" -> NL!ToStringFn(r.a)
+    [] r.op = "durparse" -> DU!DurationFn(r.a)
+    [] r.op = "durrt" -> IF NM64!InI64(r.a.n) THEN R(VBool(TRUE)) ELSE D(R(VBool(TRUE)))     \* duration(string(d)) == d
+    [] r.op = "durrt2" -> IF NM64!InI64(r.a.n) THEN R(r.a) ELSE D(R(r.a))
     [] r.op = "sizeadd" ->       \* size is additive over + (strings: pinned for ASCII text)
          LET sa == BF!Size(r.a) sb == BF!Size(r.b) IN
          IF sa.dev \/ sb.dev THEN D(R(VBool(TRUE))) ELSE R(VBool(TRUE))
